@@ -13,8 +13,11 @@ EXPLANATION = (
     "`s p o g .` never tie) before anything is written. (R5.2) in nq_for_hash the blank-node branch writes only the "
     "placeholders `_:a ` / `_:z ` (no flow from the label). (R5.3) no HashMap/HashSet anywhere in sophia_c14n (ordered "
     "containers only), so no hash-order iteration. (R5.4) the identifier map applied to the quads in step 6 is the map "
-    "returned to the caller. (R5.5) first-degree hashing serialises s, p, o and the graph name when present. NOT decided: "
-    "the `if and only if` (completeness on symmetric structures, path pruning), harmlessness of the unstable sorts.")
+    "returned to the caller. (R5.5) first-degree hashing serialises s, p, o and the graph name when present. (R5.6) the two "
+    "places where equal candidates are ordered or chosen (step 5.3 sort key, step 5.4.6 replacement test) are reported when the "
+    "key is the hash / path alone: ties there are broken by label order resp. quad order, and equal hashes do not imply "
+    "interchangeable nodes once blank graph names are involved (known findings, demonstrated). NOT decided: "
+    "the `if and only if` (completeness on symmetric structures, path pruning), adequacy of any tie-break that is added.")
 
 
 def find(ck, facts, rule, name_re, what):
@@ -48,6 +51,54 @@ def hash_container_offenders(facts, crate):
                     if re.search(r"std::collections::(HashMap|HashSet)", fd["ty"]):
                         offenders.append(a["name"].split("::")[-1] + "." + fd["name"])
     return n, offenders
+
+
+def tie_rule(ck, facts):
+    """R5.6: the two places where equal candidates are ordered / chosen.  The anchored mechanism says ties only occur between
+    automorphic nodes; that is refuted when a blank node is the graph name of a quad it shares with other blank nodes
+    (Hash Related Blank Node keeps only the *position* of the related node): `_:x <p> _:y _:z . _:z <p> _:x _:y . _:y <p> _:z _:x .`
+    has equal first- and n-degree hashes and equal paths for all nodes, but its two mirror-image labellings are different
+    documents.  A site is reported when the ordering key is the hash / path alone."""
+    fn = find(ck, facts, "R5.6", r"^rdfc10::relabel_with$", "relabel_with")
+    if fn is not None:
+        sorts = sort_calls(fn)
+        if len(sorts) != 1 or len(sorts[0][1]["args"]) < 2:
+            ck.bad("R5.6", "R5.6@relabel_with#anchor", "anchor-missing: the step 5.3 sort", fn.loc)
+        else:
+            clo = fn.origin(sorts[0][1]["args"][1])
+            cf = facts.fns.get(clo[1]["def"]) if clo[0] == "agg" and clo[1].get("k") == "closure" else None
+            if cf is None:
+                ck.bad("R5.6", "R5.6@relabel_with#anchor", "anchor-missing: the key closure of the step 5.3 sort", fn.loc)
+            else:
+                rets = [st for b in cf.blocks for st in b["s"] if st[0] == "=" and st[1] == [0]]
+                only_hash = (len(rets) == 1 and rets[0][2][0] == "use" and rets[0][2][1][0] != "k"
+                             and [p for p in rets[0][2][1][1][1:] if p != "*"] == ["f0:"] and rets[0][2][1][1][0] == 2 and not list(cf.calls()))
+                if only_hash:
+                    ck.bad("R5.6", "R5.6@relabel_with#step5.3-ties-keep-label-order", "step 5.3 sorts the (hash, issuer) pairs of a hash group by "
+                           "the hash alone: nodes with equal n-degree hashes keep the order of the group's list, which is the order of the "
+                           "original labels (b2q is keyed by label), and canonical identifiers are issued in that order. Equal hashes do "
+                           "not imply interchangeable nodes when blank nodes share quads with a blank graph name "
+                           "(findings/C05_blank_graph_name_ties.rs): relabelling the input changes the canonical document", cf.loc)
+                else:
+                    ck.ok("R5.6", "step 5.3: the sort key is more than the hash component")
+    fns = facts.find_fns(crate="sophia_c14n", name_re=r"C14nState::<'_, H, T>::hash_n_degree_quads::\{closure#0\}$")
+    if len(fns) != 1:
+        ck.bad("R5.6", "R5.6@hash_n_degree_quads#anchor", "anchor-missing: the per-permutation closure (%d)" % len(fns))
+        return
+    cf = fns[0]
+    cmps = [t for _, t in cf.calls() if call_name_matches(t, r"cmp::PartialOrd::(lt|le|gt|ge|partial_cmp)$|cmp::Ord::cmp$|cmp::PartialEq::(eq|ne)$")
+            and "String" in cf.locals[root_local(cf, t["args"][0])[0]]["ty"] + cf.locals[t["args"][0][1][0]]["ty"]]
+    names = sorted({(t["f"].get("name") or "").split("::")[-1] for t in cmps})
+    if not cmps:
+        ck.bad("R5.6", "R5.6@hash_n_degree_quads#anchor", "anchor-missing: the comparison of the candidate path with the chosen path", cf.loc)
+    elif names == ["lt"]:
+        ck.bad("R5.6", "R5.6@hash_n_degree_quads#step5.4.6-first-permutation-wins", "step 5.4.6 replaces the chosen path only if the new path "
+               "is strictly smaller: among permutations with equal paths the first one enumerated wins, and the enumeration follows "
+               "the order in which the dataset yields its quads. Equal paths do not imply equivalent issuers when related blank nodes "
+               "occur in rotated positions including the graph name (findings/C05_blank_graph_name_ties.rs): the insertion order "
+               "/ the dataset implementation changes the canonical document", cf.loc)
+    else:
+        ck.ok("R5.6", "step 5.4.6: candidate paths compared with %s" % names)
 
 
 def run(ck, facts, tier):
@@ -194,6 +245,7 @@ def run(ck, facts, tier):
             else:
                 ck.bad("R5.2", "R5.2@nq_for_hash#placeholders", "the blank-node branch of nq_for_hash writes %s%s instead of exactly the "
                        "placeholders `_:a ` / `_:z `: the first-degree hash would depend on labels" % (pushed, " and non-constant data" if bad else ""), fn.loc)
+    tie_rule(ck, facts)
     # ---- R5.3
     import core
     fo = hash_container_offenders(core.fixture_facts(), "vfix")[1]
